@@ -37,6 +37,7 @@ fn floors(t: Tier) -> Vec<(String, u64)> {
         ("writer.at.last_octet".into(), 200),
         ("reader.large_buffer".into(), 1000),
         ("writer.large_buffer".into(), 1000),
+        ("writer.clone_from".into(), 1000),
     ]
 }
 
@@ -209,6 +210,17 @@ fn reader_case(ctx: &mut Ctx) {
                     }
                 }
                 ROp::Len => {
+                    // the reader is Copy: a copy must be the same cursor and must not move the original
+                    let mut c = r;
+                    if c != r || c.len() != before {
+                        fail(format!("a copy of the reader has {} octets left", c.len()));
+                    }
+                    if before > 0 {
+                        let x = unsafe { c.read_u8_unchecked() };
+                        if x != data[pos] || r.len() != before {
+                            fail("reading from a copy disturbed the original or returned the wrong octet".into());
+                        }
+                    }
                     if r.len() != before {
                         fail(format!("len() = {} expected {}", r.len(), before));
                     }
@@ -248,6 +260,12 @@ fn reader_case(ctx: &mut Ctx) {
 
 #[derive(Clone, Debug)]
 enum WOp {
+    /// replace the writer by a clone of itself (the clone must be the same vector)
+    CloneSelf,
+    /// `clone_from` another writer holding the given octets (the standard "reuse my buffer" path)
+    CloneFrom(Vec<u8>),
+    /// compare with a freshly built equal / unequal writer through PartialEq
+    Eq,
     Bytes(Vec<u8>),
     U8(u8),
     U16(u16),
@@ -276,7 +294,23 @@ fn writer_case(ctx: &mut Ctx) {
     let mut ops_desc = Vec::new();
     let mut nops = 0u64;
     for i in 0..k {
-        let op = match ctx.rng.below(9) {
+        let op = match ctx.rng.below(11) {
+            9 => match ctx.rng.below(3) {
+                0 => WOp::CloneSelf,
+                1 => WOp::Eq,
+                _ => {
+                    // shorter, equal-length and longer sources
+                    let len = model.len();
+                    let n = match ctx.rng.below(4) {
+                        0 => len / 2,
+                        1 => len,
+                        2 => len + ctx.rng.range(1, 20) as usize,
+                        _ => ctx.rng.range(0, 40) as usize,
+                    };
+                    WOp::CloneFrom(ctx.rng.bytes(n.min(70_000)))
+                }
+            },
+            10 => WOp::Bytes(ctx.rng.bytes_range(0, 24)),
             0 | 1 => WOp::Bytes(ctx.rng.bytes_range(0, 24)),
             2 => WOp::U8(ctx.rng.u8()),
             3 => WOp::U16(ctx.rng.u16b()),
@@ -306,6 +340,29 @@ fn writer_case(ctx: &mut Ctx) {
         nops += 1;
         let wit = || J::obj(vec![("ops", J::A(ops_desc.iter().map(|o| J::s(o.clone())).collect())), ("failing_op", J::U(i))]);
         match &op {
+            WOp::CloneSelf => {
+                let c = w.clone();
+                w = c;
+                ctx.rep.bucket("writer.clone");
+            }
+            WOp::CloneFrom(src) => {
+                let mut other = VecWriter::new();
+                other.write_bytes(src);
+                w.clone_from(&other);
+                model = src.clone();
+                ctx.rep.bucket("writer.clone_from");
+            }
+            WOp::Eq => {
+                let mut same = VecWriter::new();
+                same.write_bytes(&model);
+                let mut diff = VecWriter::new();
+                diff.write_bytes(&model);
+                diff.write_u8(0);
+                if w != same || w == diff {
+                    ctx.violate("C18:writer:partial-eq", format!("a writer holding {} octets compares {} to an equal one and {} to a longer one", model.len(), if w == same { "equal" } else { "unequal" }, if w == diff { "equal" } else { "unequal" }), wit());
+                    return;
+                }
+            }
             WOp::Bytes(b) => {
                 w.write_bytes(b);
                 model.extend_from_slice(b);
